@@ -146,4 +146,15 @@ PROPS = {
   'assumptions': ['tags are unique per version of an archive'],
   'explanation': 'C08_single_version is the invariant of the LTS for every reachable state; the oracle checks every response of the real server against single versions current during the request.',
  },
+ 'C10': {
+  'uses_generated': True,
+  'rule': 'fault schedules: each fault kind (generic error, not found, 412, 416, cancelled, mid-stream read error, short / empty / garbage bytes) at each of the first seven bucket-call positions of a script of 1..3 requests, '
+          'cache sizes 0 / 1 / 64 MB, followed by recovery requests for the same and another archive; malformed objects: truncation at every length class, header-field corruption incl. values near 2^64, random bytes, '
+          'corrupted magic, flipped bytes in directories, cuts inside the root directory. Every schedule runs in a child process: a crash or hang of the server is an observable outcome. '
+          'Fault schedules are compared step by step with the model; malformed objects are judged by the oracle only. All cases non-trivial; distinct by case line',
+  'trusted_base': ['the Go scheduler, channel semantics and real time are abstracted to an interleaving LTS (coq/Model/Server.v); "completes in bounded time" is checked as: no crash, no hang within the watchdog, and no request waiting while nothing is pending',
+                   'byte-level outcomes of a fetch (short, empty, garbage, unparsable) are abstracted to "the fetch fails"; that the real parser does so is what the child-process runs check', GZIP],
+  'assumptions': ['wrong bytes returned as a successful tile read cannot be detected by the server and are not injected'],
+  'explanation': 'C10_no_lie / C10_failures_not_cached are instances of the LTS invariant over all fault placements and interleavings; progress and crash-freedom are decided on the real server in child processes.',
+ },
 }
